@@ -330,3 +330,96 @@ PROPS["C14"] = {
     "tolerances": {"power-of-two relations, shift, dyadic translation": "bitwise", "generic relations": "1e-10/1e-8/1e-7 normalised coefficients, 1e-9..1e-8 relative energy", "reversal": "10x forward tolerance (1e-7 septic), gradients 1e-6 of the largest entry of that kind"},
     "assumptions": ["well-scaled duration domain of DESIGN.md s4"],
 }
+
+# ---------------------------------------------------------------------------------------------
+# optimizer layout / copies: C09 (+C09h), C15 - one binary per (order, dimension)
+OPT_ORDERS = [3, 5, 7]
+for o in OPT_ORDERS:
+    for d in (1, 2, 3):
+        T("opt_layout_o%d_d%d" % (o, d), "opt_layout.cpp", defs=["VORDER=%d" % o, "VDIM=%d" % d])
+
+
+def _c09_jobs(tier):
+    out = []
+    reps = 1 if tier == "quick" else 8
+    for o in OPT_ORDERS:
+        for d in (1, 2, 3):
+            tgt = "opt_layout_o%d_d%d" % (o, d)
+            out += split(tgt, 3072 * reps, 1 if tier == "quick" else 2, prop="C09")
+            out += split(tgt, 600 if tier == "quick" else 60000, 1, prop="C09h")
+    return out
+
+
+PROPS["C09"] = {
+    "jobs": _c09_jobs,
+    "floor_quick": 27648, "floor_thorough": 200000,
+    "rule": "[C09, enumerated] all 256 flag settings x 3 orders x N in 1..6 x dimension in {1,2,3} x {default maps, user time map + user spatial map whose per-point unconstrained dimension is DIM-1, DIM+1 or DIM (affine, sphere)} "
+            "= 27648 configurations, each with generated reference problem (all six boundary fields non-zero, waypoints inside the image of the spatial map), generated order of configuration calls, either setInitState overload; "
+            "checked: getDimension, every slot of generateInitialGuess, and - through the built-in workspace - durations, waypoints, boundary state and coefficients of the exposed spline for the initial guess and for a vector perturbed in every slot. "
+            "[C09h] histories of 3..20 reconfigurations (new initial state with another N, flags, spatial map user/default, time map user/default) with the same checks after every query. "
+            "non-trivial = at least one flag set (enumerated) / a reconfiguration between two queries (histories)",
+    "exhaustive_note": "the C09 configuration space (flags x orders x N<=6 x dims 1..3 x 2 map modes) is enumerated completely on every run; data per configuration are generated",
+    "tolerances": {"slots, decoded quantities, exposed-spline coefficients": "bitwise", "initial-guess round trip to the reference": "256 eps (durations), 1.6e-8 relative (waypoints through user maps)"},
+    "assumptions": ["reference waypoints lie in the image of the user spatial map (a non-surjective map cannot round-trip arbitrary points)", "maps are user code and are used by the model as given"],
+}
+
+
+def _c15_jobs(tier):
+    out = []
+    per = 700 if tier == "quick" else 40000
+    for o in OPT_ORDERS:
+        for d in (1, 2, 3):
+            out += split("opt_layout_o%d_d%d" % (o, d), per, 1 if tier == "quick" else 2, prop="C15")
+    return out
+
+
+PROPS["C15"] = {
+    "jobs": _c15_jobs,
+    "floor_quick": 5000, "floor_thorough": 300000,
+    "rule": "operation sequences of 3..24 ops over a pool of 4 heap-allocated optimizers instantiated with STATEFUL user map types (their default instances carry data, register their address and poison themselves on destruction): "
+            "construct+initialise (default or user-supplied maps), change flags/weights, set/reset maps, evaluate (creates the built-in workspace), copy-construct (from an lvalue and from an rvalue), copy-assign (plain, from a temporary, "
+            "chained, self-assignment, over an optimizer that owns a workspace), destroy, re-initialise, and spline copy/assign followed by update/destruction of the source. After every op every live optimizer is evaluated and compared bitwise "
+            "with a freshly configured equivalent optimizer; the addresses of the map objects it called must lie inside the optimizer itself (default maps) or be the user's objects; exposed splines of distinct optimizers must be distinct objects. "
+            "non-trivial = a copy probed after its source was modified or destroyed, or a spline-copy step",
+    "tolerances": {"copy vs freshly configured optimizer": "bitwise"},
+    "assumptions": ["ASan (heap-allocated optimizers) turns a dangling default-map pointer into a use-after-free report; the address check catches sharing while the source is still alive"],
+}
+
+# ---------------------------------------------------------------------------------------------
+# optimizer cost / gradient: C07 C08 (C19) - one binary per (order, dimension 1..4)
+for o in OPT_ORDERS:
+    for d in (1, 2, 3, 4):
+        T("opt_cost_o%d_d%d" % (o, d), "opt_cost.cpp", defs=["VORDER=%d" % o, "VDIM=%d" % d], selftest=(d == 2))
+
+
+def _opt_cost_jobs(prop, per_quick, per_thorough, dims):
+    def jobs(tier):
+        out = []
+        for o in OPT_ORDERS:
+            for d in dims:
+                out += split("opt_cost_o%d_d%d" % (o, d), per_quick if tier == "quick" else per_thorough, 1 if tier == "quick" else 2, prop=prop)
+        return out
+    return jobs
+
+
+PROPS["C07"] = {
+    "jobs": _opt_cost_jobs("C07", 768, 768 * 24, (1, 2, 3, 4)),
+    "floor_quick": 9216, "floor_thorough": 200000,
+    "rule": "[enumerated] all 256 flag combinations x 3 map pairs (QuadInv+Identity, IdentityTime+Identity, user time map {exp, softplus, quadratic-inverse} + user spatial map with per-point unconstrained dimension DIM-1/DIM/DIM+1 "
+            "(affine, sphere, identity)) for each of 3 orders x dimensions 1..4 (12 binaries); per configuration generated: N in 1..6, durations/waypoints/boundary state, start time, energy weight 0 or 2^k (scaled), K in {1,2,3,4,5,8,16,64}, "
+            "time/waypoint/running cost programs depending on p,v,a,j,s, global time and segment index, decision vector = initial guess perturbed in every slot. Oracle: central differences with Richardson extrapolation of the cost RETURNED by "
+            "evaluate for every coordinate and 3 generated directions. non-trivial = a boundary-derivative or end-point flag set, K >= 2 and a running cost with non-zero explicit-time gradient",
+    "exhaustive_note": "flags x map pairs (768 configurations per order and dimension) are enumerated completely on every run",
+    "tolerances": {"finite differences": "1e-6 (|grad|inf + 1e-3 |cost|) + 2|D(h/2)-D(h)| + (8 eps + 1e-14/1e-13/1e-11) sum|cost pieces| / h, h = 2^-12; loose fraction reported"},
+    "assumptions": ["smooth cost functors of the stated families; time enters the running cost only through t_global (documented protocol)", "durations kept >= 0.05 s", "duration ratio <= 8"],
+}
+PROPS["C08"] = {
+    "jobs": _opt_cost_jobs("C08", 1200, 60000, (1, 2, 3)),
+    "floor_quick": 9000, "floor_thorough": 400000,
+    "rule": "order x dimension 1..3 x map pair x N in 1..6 x flags (any of 256) x start time (0, k/8, 100k) x K in {1,2,3,4,5,7,8,16,33,64} x energy weight x cost programs x decision vector; a recording running-cost functor logs every call. "
+            "Checked: exactly N(K+1) calls, each node once, local time k/K*T_i, global time = start + elapsed durations + local time, position..snap handed over = the workspace trajectory's derivatives at that instant (long-double reference), "
+            "returned cost = time cost + waypoint cost + trapezoid sum + weight*exact energy; two-cost overload = three-cost overload with zero waypoint cost (bitwise); integrating 1 gives the total duration and integrating t_global is exact, both for every K. "
+            "non-trivial = K >= 2, N >= 2 and non-zero start time",
+    "tolerances": {"cost": "1e-9 of the sum of absolute terms", "states": "4x running Horner bound", "times": "4 ulp"},
+    "assumptions": ["serial executor (the recording functor is not thread-safe)"],
+}
